@@ -48,7 +48,11 @@ def dump(v):
     if isinstance(v, bytearray):
         return {'$ba': bytes(v).hex()}
     if isinstance(v, memoryview):
-        return {'$mv': bytes(v).hex()}
+        try:
+            return {'$mv': v.tobytes().hex(), 'fmt': v.format,
+                    'shape': list(v.shape) if v.shape else None}
+        except Exception:
+            return {'$mv': '', 'fmt': 'B', 'shape': None}
     if isinstance(v, decimal.Decimal):
         t = v.as_tuple()
         return {'$D': [t.sign, list(t.digits), t.exponent], 'str': str(v)}
@@ -94,7 +98,14 @@ def load(j):
         if '$ba' in j:
             return bytearray(bytes.fromhex(j['$ba']))
         if '$mv' in j:
-            return memoryview(bytes.fromhex(j['$mv']))
+            mv = memoryview(bytes.fromhex(j['$mv']))
+            try:
+                if j.get('shape') and (j.get('fmt', 'B') != 'B' or
+                                       len(j['shape']) > 1):
+                    mv = mv.cast(j.get('fmt', 'B'), j['shape'])
+            except Exception:
+                pass
+            return mv
         if '$D' in j:
             s, d, e = j['$D']
             return decimal.Decimal((s, tuple(d), e))
